@@ -153,6 +153,9 @@ struct ArcM
     count: i32,
     doomed: bool,
     collected: bool,
+    /// the last trigger disappeared in the middle of a collection pass (a collected entity owned the handle): that
+    /// pass or the next one may collect the reactor - both are "the first collection after"
+    grace: bool,
 }
 
 #[derive(Debug, Clone)]
@@ -366,7 +369,7 @@ impl Checker
     fn dec_arc(&mut self, a: usize)
     {
         self.arcs[a].count -= 1;
-        if self.arcs[a].count == 0 { self.arcs[a].doomed = true; }
+        if self.arcs[a].count == 0 { self.arcs[a].doomed = true; self.arcs[a].grace = self.in_gc; }
         if self.arcs[a].count < 0 { self.internal(format!("arc {a} count negative")); }
     }
 
@@ -870,7 +873,7 @@ impl Checker
         if !self.alive(sys) { self.stale("C18:register_on_dead_reactor"); }
         let arc = if persistent { None } else
         {
-            self.arcs.push(ArcM{ sys, count: 0, doomed: false, collected: false });
+            self.arcs.push(ArcM{ sys, count: 0, doomed: false, collected: false, grace: false });
             Some(self.arcs.len() - 1)
         };
         {
@@ -1286,6 +1289,7 @@ impl Checker
                     .filter(|(_, a)| a.doomed && !a.collected).map(|(i, a)| (i, a.sys)).collect();
                 for (a, s) in missed
                 {
+                    if self.arcs[a].grace { self.arcs[a].grace = false; continue; }
                     self.arcs[a].collected = true;
                     self.viol_sys("C07", Some(s), format!("reactor {s} lost its last trigger but the next garbage collection did not collect it"));
                 }
@@ -1791,6 +1795,7 @@ impl Checker
                         // after a frame (no trailing collection) a reactor that lost its last trigger during the
                         // frame's poll is still waiting for the next collection
                         self.arcs[a].count > 0 || (phase == 3 && self.arcs[a].doomed && !self.arcs[a].collected)
+                            || (self.arcs[a].doomed && !self.arcs[a].collected && self.arcs[a].grace)
                     }
                     else { true };
                 let lives = facts.sys.get(u).map(|x| *x != 0 && *x != 4).unwrap_or(false);
